@@ -102,6 +102,10 @@ def cases(tier, seed):
         rich = bool(m[1]) or i >= len(fide_models) - 12
         for k in (full if (rich and tier == 'thorough') or (rich and i % 4 == 0) else cover):
             yield ('FIDE', m, k)
+    for m in rt.align_models(tier):
+        yield ('FIDE', m, _key(fide, fide.DEFAULT))
+        yield ('GLEN', m, _key(glencoe, glencoe.DEFAULT))
+        yield ('FAMA', m, (0,))
     # ---- FaMa XML
     fama_models = structs + [DEEP1, DEEP2] + list(families.models()) + [_with(CAR5, ts) for ts in _ctc_lists(('Bb', 'Dc', 'Ad', 'Ee'), reqs=True)[-2:-1]]
     fama_models.append(_with(CAR5G, [('REQUIRES', 'Bb', 'Dc'), ('EXCLUDES', 'Ad', 'Ee'), ('REQUIRES', 'Ee', 'Bb')]))
